@@ -21,6 +21,19 @@ func init() {
 	reg(vrt+"U8", mkSym(types.Uint8))
 	reg(vrt+"Int", mkSym(types.Int))
 	reg(vrt+"Bool", mkSym(types.Bool))
+	// Bytes(name, max): a non-nil byte slice of opaque content whose length is
+	// a solver variable in [0, max].
+	reg(vrt+"Bytes", func(fr *frame, a []value) value {
+		w := fr.w
+		n := w.freshVar(a[0].(string), types.Int).(sym)
+		mx := asInt64(a[1])
+		lo := w.tt.cmp("bvsle", w.tt.konst(64, 0), n.t)
+		hi := w.tt.cmp("bvsle", n.t, w.tt.konst(64, uint64(mx)))
+		w.assume(lo)
+		w.assume(hi)
+		w.counter++
+		return symBytes{n: n, id: w.counter}
+	})
 	reg(vrt+"Choose", func(fr *frame, a []value) value {
 		w := fr.w
 		n := int(asInt64(a[1]))
@@ -105,6 +118,7 @@ func init() {
 		return n
 	})
 	reg(vrt+"Finish", nop)
+	reg(vrt+"SetNativeQuiesceMs", nop)
 	// Stub(name, fn): calls to the function named name (ssa String form) are
 	// redirected to the harness closure fn for the rest of the path.
 	reg(vrt+"Stub", func(fr *frame, a []value) value {
